@@ -163,7 +163,7 @@ pub fn sync_fault_then_growth(db: &jammdb::DB) -> Result<(), String> {
 }
 
 #[allow(clippy::too_many_arguments)]
-fn child_body(path: &str, i: usize, n: usize, init_fault: bool, second_fd: bool, sync_fault_grow: bool, stat_fault: bool, grow_plain: bool) -> ! {
+fn child_body(path: &str, i: usize, n: usize, init_fault: bool, second_fd: bool, sync_fault_grow: bool, stat_fault: bool, grow_plain: bool, direct: bool) -> ! {
     let path = path.to_string();
     let dir = std::path::Path::new(&path).parent().unwrap().to_string_lossy().to_string();
     iosim::set_track_prefix(&dir);
@@ -177,7 +177,7 @@ fn child_body(path: &str, i: usize, n: usize, init_fault: bool, second_fd: bool,
         plan.fault = Some(iosim::Fault::nth(Kind::Stat, 0, libc::EIO));
     }
     iosim::install_plan(plan);
-    let cfg = Cfg { num_pages: 16 * (i + 1), populate: i % 2 == 1, ..Cfg::default() };
+    let cfg = Cfg { num_pages: 16 * (i + 1), populate: i % 2 == 1, direct, ..Cfg::default() };
     let opened = real::guarded(|| cfg.open(&path));
     let fired = (init_fault || stat_fault)
         && iosim::with_plan(|p| {
@@ -189,6 +189,10 @@ fn child_body(path: &str, i: usize, n: usize, init_fault: bool, second_fd: bool,
     let db = match opened {
         Ok(Ok(db)) => db,
         Ok(Err(jammdb::Error::Io(_))) if fired => {
+            say("I interrupted");
+            unsafe { libc::_exit(0) };
+        }
+        Ok(Err(jammdb::Error::Io(e))) if direct && e.raw_os_error() == Some(libc::EINVAL) => {
             say("I interrupted");
             unsafe { libc::_exit(0) };
         }
@@ -311,6 +315,7 @@ pub struct PCase {
     pub sync_fault_grow: Option<usize>,
     pub stat_fault: Option<usize>,
     pub grow_plain: Option<usize>,
+    pub direct: Option<usize>,
 }
 
 #[derive(Default)]
@@ -403,7 +408,7 @@ fn reap(procs: &mut [Proc]) {
 
 /// forks one opener; the child never returns
 #[allow(clippy::too_many_arguments)]
-fn spawn_opener(path: &str, i: usize, n: usize, init_fault: bool, second_fd: bool, sync_fault_grow: bool, stat_fault: bool, grow_plain: bool) -> Result<Proc, String> {
+fn spawn_opener(path: &str, i: usize, n: usize, init_fault: bool, second_fd: bool, sync_fault_grow: bool, stat_fault: bool, grow_plain: bool, direct: bool) -> Result<Proc, String> {
     let mut to_child = [0i32; 2];
     let mut from_child = [0i32; 2];
     unsafe {
@@ -424,7 +429,7 @@ fn spawn_opener(path: &str, i: usize, n: usize, init_fault: bool, second_fd: boo
             }
             CHILD_IN.store(to_child[0], std::sync::atomic::Ordering::Relaxed);
             CHILD_OUT.store(from_child[1], std::sync::atomic::Ordering::Relaxed);
-            child_body(path, i, n, init_fault, second_fd, sync_fault_grow, stat_fault, grow_plain);
+            child_body(path, i, n, init_fault, second_fd, sync_fault_grow, stat_fault, grow_plain, direct);
         }
         libc::syscall(libc::SYS_close, to_child[0]);
         libc::syscall(libc::SYS_close, from_child[1]);
@@ -449,7 +454,7 @@ pub fn run_one(case: &PCase, path: &str, prefix: &[u8]) -> (ExecResult, Vec<Judg
     let n = case.openers;
     let mut procs: Vec<Proc> = vec![];
     for i in 0..n {
-        match spawn_opener(path, i, n, case.init_fault == Some(i), case.second_fd, case.sync_fault_grow == Some(i), case.stat_fault == Some(i), case.grow_plain == Some(i)) {
+        match spawn_opener(path, i, n, case.init_fault == Some(i), case.second_fd, case.sync_fault_grow == Some(i), case.stat_fault == Some(i), case.grow_plain == Some(i), case.direct == Some(i)) {
             Ok(p) => procs.push(p),
             Err(e) => {
                 reap(&mut procs);
@@ -570,7 +575,7 @@ pub fn run_one(case: &PCase, path: &str, prefix: &[u8]) -> (ExecResult, Vec<Judg
         }
         if !o.interrupted.is_empty() {
             outcome.push_str(&format!("initfail{:?};", o.interrupted));
-            if case.init_fault.is_none() && case.stat_fault.is_none() {
+            if case.init_fault.is_none() && case.stat_fault.is_none() && case.direct.is_none() {
                 js.push(Judgement { class: "open_failed".into(), detail: format!("openers {:?} reported an I/O error although none was injected", o.interrupted) });
             }
         }
@@ -610,7 +615,7 @@ pub fn run_one(case: &PCase, path: &str, prefix: &[u8]) -> (ExecResult, Vec<Judg
 pub fn debug_run(args: &[String]) {
     let scratch = crate::report::scratch_dir();
     let path = format!("{}/c13p-debug.db", scratch);
-    let case = PCase { openers: args[0].parse().unwrap(), file_exists: args[1] == "1", init_fault: None, second_fd: args.get(3).map(|s| s == "1").unwrap_or(false), sync_fault_grow: None, stat_fault: None, grow_plain: None };
+    let case = PCase { openers: args[0].parse().unwrap(), file_exists: args[1] == "1", init_fault: None, second_fd: args.get(3).map(|s| s == "1").unwrap_or(false), sync_fault_grow: None, stat_fault: None, grow_plain: None, direct: None };
     let prefix: Vec<u8> = args.get(2).map(|s| s.split(',').filter(|x| !x.is_empty()).map(|x| x.parse().unwrap()).collect()).unwrap_or_default();
     let t0 = std::time::Instant::now();
     let (res, js, outcome) = run_one(&case, &path, &prefix);
